@@ -209,6 +209,11 @@ func All() []Program {
 			"page.vuego":   `<section><template include="thread.vuego" :node="tree"></template></section>` + end,
 			"thread.vuego": `<ul><li><b>{{ node.name }}</b><template v-if="node.kid" include="thread.vuego" :node="node.kid"></template></li></ul>`,
 		}, Data: deepTree(70), Feat: []string{"deep", "include"}},
+		// front-matter plus writes into the page's root scope; rendered without any data the
+		// root scope is (a copy of) the cached front-matter
+		{Name: "fm-root-write", FileOnly: true, Files: map[string]string{
+			"page.vuego": "---\nuser: fmUser\ngreeting: fmHello\nvisits: 1\n---\n" + `<template :user="user | default('guest')" :visits="visits + 1" note="n-{{ greeting }}"></template><p>{{ greeting }} {{ user }} {{ note }} {{ visits }}</p><ul><li v-for="i in tags">{{ i }}</li></ul>` + end,
+		}, Data: map[string]vals.V{}, Feat: []string{"frontmatter", "root-write"}},
 		{Name: "struct-data", Files: map[string]string{"page.vuego": `<p>{{ rec.Name }} {{ rec.title }} {{ rec.Kids[0].Name }}</p><b v-for="k in rec.Kids" :title="k.title">{{ k.Name }}</b><i v-if="rec.Flag">flag</i>` + end},
 			Data: map[string]vals.V{"rec": {K: "*rec", M: map[string]vals.V{"Name": s("structWHO"), "Title": s("T"), "Flag": vals.Bool(true), "Kids": {K: "[]rec", L: []vals.V{{K: "rec", M: map[string]vals.V{"Name": s("kid1"), "Title": s("kt1")}}, {K: "rec", M: map[string]vals.V{"Name": s("kid2"), "Title": s("kt2")}}}}}}}, Feat: []string{"struct", "paths"}},
 
